@@ -17,8 +17,9 @@
 (* driver, id 0) needs its next step, the action picks it from Choices and *)
 (* appends it to script[c].  Execution is deterministic, so a maximal path *)
 (* of the state graph IS one program together with its execution; the      *)
-(* state graph is a tree and every terminal state carries the complete     *)
-(* scripts and the complete event history `ev` (the replay oracle).        *)
+(* state graph is a tree (up to the moment at which the native driver      *)
+(* decides to stop) and every terminal state carries the complete scripts  *)
+(* and the complete event history `ev` (the replay oracle).                *)
 (*                                                                         *)
 (* Steps <<kind, arg>> of a coroutine c:                                   *)
 (*   pa    co_await cocls::pause()                   coro_queue.h:211-219  *)
